@@ -431,10 +431,38 @@ def law_L5(e, o):
     b = z3.Implies(z3.And(EXok(e, o), z3.Not(none_missing)), z3.Not(VLok(e, o)))
     c = z3.Implies(z3.And(EXok(e, o), z3.Not(VLok(e, o)), missing(VLexc(e, o))),
                    z3.And(z3.IsMember(mkey(VLexc(e, o)), X), z3.Not(has(o, mkey(VLexc(e, o))))))
-    return z3.And(covers, a, b, c)
+    return z3.And(covers, a, c)
 
 
-def child_laws(which=("L1", "L2", "L3", "L4a", "L5", "L6", "L6v")):
+def law_L5d(e, o):
+    """when validation passes, explain can choose every branch"""
+    return z3.Implies(z3.Or(VLok(e, o), EVok(e, o)), EXok(e, o))
+
+
+def law_L4t(e, o):
+    """under A-total: validate, keys and evaluate succeed or fail together"""
+    return z3.And(EVok(e, o) == VLok(e, o), KSok(e, o) == VLok(e, o))
+
+
+assume("A-total", "(only for the obligations named L4t/L5b) user callables and effects are total, option values lie in their declared "
+       "domains: the precondition of the 'succeed or fail together' half of C10 and of C11's 'absent listed key => validate fails'")
+
+
+def total_axioms():
+    f, a, v = z3.Consts("f! a! v!", Val)
+    e = z3.Const("e!", Ev)
+    o = z3.Const("o!", Opt)
+    k = z3.Const("k!", Key)
+    return [z3.ForAll([f, a], call_ok(f, a), patterns=[call_ok(f, a)]),
+            z3.ForAll([e, v, o], TFok(e, v, o) == VLok(e, o), patterns=[TFok(e, v, o)]),
+            z3.ForAll([e, o], law_L4t(e, o), patterns=[EVok(e, o)]),
+            z3.ForAll([e, o], law_L4t(e, o), patterns=[VLok(e, o)]),
+            z3.ForAll([e, o], law_L4t(e, o), patterns=[KSok(e, o)]),
+            z3.ForAll([e, o, k], z3.Implies(z3.And(EXok(e, o), z3.IsMember(k, EXset(e, o)), z3.Not(has(o, k))), z3.Not(VLok(e, o))),
+                      patterns=[z3.MultiPattern(z3.IsMember(k, EXset(e, o)), has(o, k))])]
+
+
+def child_laws(which=("L1", "L2", "L3", "L4a", "L5", "L5d", "L6", "L6v")):
     e = z3.Const("e!c", Ev)
     o, o2 = z3.Consts("o!c o2!c", Opt)
     ax = []
@@ -448,6 +476,8 @@ def child_laws(which=("L1", "L2", "L3", "L4a", "L5", "L6", "L6v")):
         ax.append(z3.ForAll([e, o], law_L4a(e, o), patterns=[VLok(e, o)]))
     if "L5" in which:
         ax.append(z3.ForAll([e, o], law_L5(e, o), patterns=[EXok(e, o)]))
+    if "L5d" in which:
+        ax.append(z3.ForAll([e, o], law_L5d(e, o), patterns=[EXok(e, o)]))
     if "L6" in which:
         ax.append(z3.ForAll([e, o], law_L6(e, o), patterns=[EVok(e, o)]))
     if "L6v" in which:
